@@ -275,7 +275,14 @@ def r5_mechanism_typestate(chk, rid="R5"):
                 r.bad(cfg, key, where(pt, acc[0] if acc else 0), "expected exactly one transition to ServerSendWelcome in process_token, found %d" % len(acc))
             else:
                 gs = pt.guards(acc[0], select_aware=False)
-                need = {"expected_username": False, "expected_password": False}
+                # the configured credentials: the Option<Vec<u8>> fields of the mechanism that process_token never assigns
+                # (the ones it does assign hold what the peer sent); found by type and use, not by name
+                adt_p = prog.facts.adts.get("security::plain::PlainMechanism") or {"variants": []}
+                opt_fields = [x["name"] for v in adt_p["variants"] for x in v["fields"] if re.search(r"Option<std::vec::Vec<u8", x["ty"])]
+                assigned = set(st["p"]["pr"][-1][2] for _b, _i, st in pt.statements() if st["k"] == "assign" and st["p"]["pr"] and st["p"]["pr"][-1][0] == "field" and pt.place_path(st["p"]).startswith("self."))
+                need = {f_: False for f_ in opt_fields if f_ not in assigned}
+                if len(need) < 2:
+                    need = {"<configured username>": False, "<configured password>": False}
                 # `a && b` is lowered to a bool local assigned `false` on the short-circuit edge and `b` otherwise:
                 # a guard `local == true` therefore implies its non-constant definitions and their own guards
                 calls_true = [g.atom[1] for g in gs if g.atom[0] == "call" and g.truth is True]
@@ -295,11 +302,11 @@ def r5_mechanism_typestate(chk, rid="R5"):
                         recv = pt.provenance(c.args[0])
                         dflt = pt.const_int(c.args[1]) if len(c.args) > 1 else None
                         for f in need:
-                            if f in recv and dflt == 0:
-                                # the closure compares with the value parsed from HELLO
+                            if re.search(r"self\.%s\b" % re.escape(f), recv) and dflt == 0:
+                                # the closure compares with a value parsed from the HELLO body (a call result), not with another field of self
                                 clo = pt.value_origin(c.args[2]) if len(c.args) > 2 else ("?",)
-                                caps = " ".join(pt.provenance(o) for o in clo[1]["r"]["ops"]) if clo[0] == "agg" else ""
-                                if "parse_hello_body" in caps:
+                                caps = [pt.provenance(o) for o in clo[1]["r"]["ops"]] if clo[0] == "agg" else []
+                                if caps and all(not x.startswith("self.") for x in caps) and any("(" in x for x in caps):
                                     need[f] = True
                 hello = any(g.atom[0] == "call" and g.atom[1].name in ("eq",) and g.truth is True and "CMD_HELLO" in " ".join(pt.provenance(a) + (a.get("item") or "") for a in g.atom[1].args) for g in gs)
                 srv = any(g.atom[0] == "place" and g.atom[1].endswith(".is_server") and g.truth is True for g in gs)
